@@ -183,6 +183,18 @@ class GaussianMerge(Compiler):
                     # Fix order of operations
                     unified_operations = self.organize_merge_ops([op] + merged_gaussian_ops)
                     gaussian_transform = GaussianUnitary().compile(unified_operations, registers)
+                    if not gaussian_transform:
+                        # the merged operations cancel out: remove them one by one,
+                        # keeping the order between their neighbours
+                        for merged_op in [op] + merged_gaussian_ops:
+                            self.new_DAG.add_edges_from(
+                                (pre, post)
+                                for pre in list(self.new_DAG.predecessors(merged_op))
+                                for post in list(self.new_DAG.successors(merged_op))
+                            )
+                            self.new_DAG.remove_node(merged_op)
+                        self.curr_seq = pu.DAG_to_list(self.new_DAG)
+                        return True
                     self.new_DAG.add_node(gaussian_transform[0])
 
                     # Logic to add displacement gates. Returns a dictionary,
@@ -234,10 +246,14 @@ class GaussianMerge(Compiler):
         """
         for successor_op in successors:
             if get_op_name(successor_op) not in self.gaussian_ops:
-                # If there are no displacement gates.
-                # Add edges from it to successor gates if they act upon the same qumodes
-                if not displacement_mapping:
-                    # Add edge from gaussian transform to successor operation
+                # The successor follows the displacement gate acting on one of its qumodes,
+                # if there is one, and the gaussian transform otherwise
+                placed_edge = False
+                for qumode in get_qumodes_operated_upon(successor_op):
+                    if qumode in displacement_mapping:
+                        self.new_DAG.add_edge(displacement_mapping[qumode], successor_op)
+                        placed_edge = True
+                if not placed_edge:
                     self.new_DAG.add_edge(gaussian_transform[0], successor_op)
 
     def add_gaussian_pre_and_succ_gates(
